@@ -355,6 +355,43 @@ func frMustReject(f wire.Frame) string {
 	return ""
 }
 
+// RFC 9000 value rules restated on a parsed frame (anything the parser returns must satisfy them)
+func frParsedInvalid(f wire.Frame) string {
+	if why := frMustReject(f); why != "" {
+		return why
+	}
+	switch x := f.(type) {
+	case *wire.AckFrame:
+		if len(x.AckRanges) == 0 {
+			return "no ACK range"
+		}
+		for i, r := range x.AckRanges {
+			if r.Smallest < 0 || r.Smallest > r.Largest || uint64(r.Largest) > fv8 {
+				return "an ACK range that is negative or inverted"
+			}
+			if i > 0 && r.Largest+2 > x.AckRanges[i-1].Smallest {
+				return "ACK ranges that overlap, touch or ascend"
+			}
+		}
+		if x.DelayTime < 0 {
+			return "a negative ACK delay"
+		}
+	case *wire.NewConnectionIDFrame:
+		if x.ConnectionID.Len() > 20 {
+			return "a connection ID longer than 20 bytes"
+		}
+	case *wire.StreamFrame:
+		if x.StreamID < 0 || x.Offset < 0 {
+			return "a negative stream ID / offset"
+		}
+	case *wire.AckFrequencyFrame:
+		if x.RequestMaxAckDelay < 0 {
+			return "a negative max ack delay"
+		}
+	}
+	return ""
+}
+
 // what the frame is expected to parse back to (ACK: 64 ranges, quantised delay); nil: no expectation
 func (g *frGen) expectBack(f wire.Frame, exp uint8) wire.Frame {
 	switch x := f.(type) {
@@ -417,6 +454,9 @@ func (g *frGen) emitParse(c frCfg, lvl protocol.EncryptionLevel, v protocol.Vers
 	if cls == 0 {
 		if consumed > len(in) || consumed <= 0 {
 			g.monfail("frames/consumed", fmt.Sprintf("consumed %d of %d bytes", consumed, len(in)), fmt.Sprintf("cfg=%s lvl=%d input=%x", frCfgStr(c), lvl, in))
+		}
+		if why := frParsedInvalid(f); why != "" {
+			g.monfail("frames/reject", "parser accepted a frame with "+why+": "+wire.VerifDumpFrame(f), fmt.Sprintf("cfg=%s lvl=%d input=%x", frCfgStr(c), lvl, in))
 		}
 		g.checkReencode(c, lvl, v, in, f, consumed)
 	}
@@ -935,6 +975,104 @@ func (g *frGen) typeSweep(thorough bool) {
 	}
 }
 
+// hand-assembled frames on both sides of every cross-field rule (limit-1, limit, limit+1)
+func (g *frGen) relationalCases() {
+	r := g.r
+	va := func(b []byte, v uint64) []byte {
+		switch {
+		case v <= fv1:
+			return append(b, byte(v))
+		case v <= fv2:
+			return append(b, byte(v>>8)|0x40, byte(v))
+		case v <= fv4:
+			return append(b, byte(v>>24)|0x80, byte(v>>16), byte(v>>8), byte(v))
+		}
+		return append(b, byte(v>>56)|0xc0, byte(v>>48), byte(v>>40), byte(v>>32), byte(v>>24), byte(v>>16), byte(v>>8), byte(v))
+	}
+	full := frCfg{dg: true, rsa: true, af: true, exp: 3}
+	emit := func(in []byte, wantOK bool, what string) {
+		in = append(in, r.Bytes(r.Intn(3))...)
+		f, cls, _ := g.emitParse(full, protocol.Encryption1RTT, protocol.Version1, in, "relational")
+		if wantOK && cls != 0 {
+			g.monfail("frames/roundtrip", fmt.Sprintf("%s: a frame on the allowed side of the rule is refused (class %d)", what, cls), fmt.Sprintf("input=%x", in))
+		}
+		if !wantOK && cls == 0 {
+			g.monfail("frames/reject", what+": accepted "+wire.VerifDumpFrame(f), fmt.Sprintf("input=%x", in))
+		}
+	}
+	bases := []uint64{0, 1, 5, fv1 - 1, fv1, fv1 + 1, 1000, fv2, fv2 + 1, fv4, fv4 + 1, 1 << 40, fv8 - 1}
+	for _, x := range bases {
+		for d := -1; d <= 1; d++ {
+			y := int64(x) + int64(d)
+			if y < 0 || uint64(y) > fv8 {
+				continue
+			}
+			// ACK: first range length vs largest acked
+			emit(va(va(va(va([]byte{0x02}, x), 9), 0), uint64(y)), uint64(y) <= x, "ACK first range <= largest acked")
+			// ACK: second range: gap+2 vs smallest (first range 0 long, so smallest = x)
+			if y >= 2 {
+				emit(va(va(va(va(va(va([]byte{0x02}, x), 9), 1), 0), uint64(y-2)), 0), uint64(y) <= x, "ACK gap+2 <= smallest")
+			}
+			// ACK: second range length vs its largest (gap 0: largest = x-2)
+			if x >= 2 {
+				emit(va(va(va(va(va(va([]byte{0x02}, x), 9), 1), 0), 0), uint64(y)), y <= int64(x)-2, "ACK range length <= range largest")
+			}
+			// NEW_CONNECTION_ID: retire prior to vs sequence number
+			nc := va(va([]byte{0x18}, x), uint64(y))
+			nc = append(append(append(nc, 4), r.Bytes(4)...), r.Bytes(16)...)
+			emit(nc, uint64(y) <= x, "NEW_CONNECTION_ID retire prior to <= sequence number")
+			// RESET_STREAM_AT: reliable size vs final size
+			emit(va(va(va(va([]byte{0x24}, 4), 7), x), uint64(y)), uint64(y) <= x, "RESET_STREAM_AT reliable size <= final size")
+		}
+	}
+	// stream counts around 2^60
+	for _, t := range []byte{0x12, 0x13, 0x16, 0x17} {
+		for d := -1; d <= 1; d++ {
+			emit(va([]byte{t}, uint64(int64(1<<60)+int64(d))), d <= 0, "stream count <= 2^60")
+		}
+	}
+	// STREAM: offset + length around 2^62-1
+	for _, n := range []int{0, 1, 5, 64, 200} {
+		for d := -1; d <= 1; d++ {
+			off := int64(fv8) - int64(n) + int64(d)
+			if off < 0 || uint64(off) > fv8 {
+				continue
+			}
+			in := va(va(va([]byte{0x0e}, 8), uint64(off)), uint64(n))
+			emit(append(in, r.Bytes(n)...), d <= 0, "STREAM offset+length <= 2^62-1")
+			in = va(va([]byte{0x0c}, 8), uint64(off)) // without length: the data is the rest of the packet
+			g.emitParse(full, protocol.Encryption1RTT, protocol.Version1, append(in, r.Bytes(n)...), "relational")
+		}
+	}
+	// NEW_CONNECTION_ID: connection ID length 0, 1, 20, 21
+	for _, l := range []int{0, 1, 19, 20, 21, 255} {
+		nc := append(va(va([]byte{0x18}, 9), 3), byte(l))
+		nc = append(append(nc, r.Bytes(l)...), r.Bytes(16)...)
+		emit(nc, l >= 1 && l <= 20, "NEW_CONNECTION_ID connection ID length in 1..20")
+	}
+	// length fields = what is left, one more, one less (STREAM, CRYPTO, DATAGRAM, NEW_TOKEN, CONNECTION_CLOSE)
+	for _, n := range []int{0, 1, 2, 63, 64, 65, 127, 128, 129} {
+		for d := -1; d <= 1; d++ {
+			l := n + d
+			if l < 0 {
+				continue
+			}
+			data := r.Bytes(n)
+			for _, hd := range [][]byte{{0x0a, 0x04}, {0x06, 0x00}, {0x31}, {0x07}, {0x1c, 0x0a, 0x00}, {0x1d, 0x0a}} {
+				in := append(va(append([]byte{}, hd...), uint64(l)), data...)
+				f, cls, consumed := g.emitParse(full, protocol.Encryption1RTT, protocol.Version1, in, "relational")
+				ok := l <= n && !(hd[0] == 0x07 && l == 0)
+				if ok != (cls == 0) {
+					g.monfail("frames/reject", fmt.Sprintf("length field %d with %d bytes left: class %d", l, n, cls), fmt.Sprintf("input=%x", in))
+				}
+				if cls == 0 && consumed != len(in)-(n-l) {
+					g.monfail("frames/consumed", fmt.Sprintf("consumed %d, frame has %d bytes (%s)", consumed, len(in)-(n-l), wire.VerifDumpFrame(f)), fmt.Sprintf("input=%x", in))
+				}
+			}
+		}
+	}
+}
+
 func (g *frGen) mutate(enc []byte) []byte {
 	r := g.r
 	b := append([]byte{}, enc...)
@@ -1065,6 +1203,7 @@ func runFrames(w *bufio.Writer, seed uint64, n int, _ []string) {
 			g.emitParse(frCfg{exp: 3}, protocol.Encryption1RTT, protocol.Version1, in, "stream-pool")
 		}
 	}
+	g.relationalCases()
 	// (iii) split and truncation
 	g.splitCases(n/2 + 40)
 	g.truncCases(n/2 + 40)
